@@ -583,6 +583,79 @@ func checkHeld() []corr.Hit {
 	return hits
 }
 
+// ---------------------------------------------------------------- the harness never dies and never hangs
+
+// Any panic or endless loop of an API call on a script line is a result (`panic` / `hang`) and a monitor hit with the
+// line as replay — never the death of the runner. Every line runs in its own goroutine under a watchdog; after the
+// first hang of an operation kind later lines of that kind are answered `hang` at once (the stuck goroutine cannot be
+// killed, it just keeps spinning in the background).
+var hungOps = map[string]bool{}
+
+const lineTimeout = 8 * time.Second
+
+func opName(line string) string {
+	f := strings.Fields(line)
+	if len(f) == 0 {
+		return ""
+	}
+	return f[0]
+}
+
+// knownPanic: the one input on which the unchanged tree panics and which is outside the property's quantifier
+// (JsInt64 on the lone quote character is `b[1:0]`; no JSON library ever passes it — theorem i64_lone_quote_panics_today).
+func knownPanic(line string) bool { return line == `i64.dec t:"` }
+
+func runLineGuarded(line string) (string, []corr.Hit) {
+	op := opName(line)
+	if hungOps[op] {
+		return "hang", nil
+	}
+	type result struct {
+		out  string
+		hits []corr.Hit
+	}
+	ch := make(chan result, 1)
+	go func() {
+		defer func() {
+			if r := recover(); r != nil {
+				ch <- result{"panic", []corr.Hit{{Key: "C20:" + op + ":api-call-panics", What: fmt.Sprintf("`%s` panicked: %v", line, r)}}}
+			}
+		}()
+		o, h := runLine(line)
+		if o == "panic" && !knownPanic(line) {
+			h = append(h, corr.Hit{Key: "C20:" + op + ":api-call-panics", What: fmt.Sprintf("`%s`: the call panicked", line)})
+		}
+		ch <- result{o, h}
+	}()
+	select {
+	case r := <-ch:
+		return r.out, r.hits
+	case <-time.After(lineTimeout):
+		hungOps[op] = true
+		return "hang", []corr.Hit{{Key: "C20:" + op + ":does-not-terminate", What: fmt.Sprintf("`%s` did not return within %v", line, lineTimeout)}}
+	}
+}
+
+func guardedHeld() (hits []corr.Hit) {
+	ch := make(chan []corr.Hit, 1)
+	go func() {
+		defer func() {
+			if r := recover(); r != nil {
+				held = held[:0]
+				ch <- []corr.Hit{{Key: "C20:encode-decode-after-script:api-call-panics", What: fmt.Sprintf("a plain encode/decode of a valid value panicked: %v", r)}}
+			}
+		}()
+		ch <- checkHeld()
+	}()
+	select {
+	case h := <-ch:
+		return h
+	case <-time.After(lineTimeout):
+		held = nil
+		return []corr.Hit{{Key: "C20:encode-decode-after-script:does-not-terminate", What: "a plain encode/decode of a valid value did not return"}}
+	}
+}
+
 // ---------------------------------------------------------------- one line
 
 func runLine(line string) (string, []corr.Hit) {
